@@ -40,6 +40,28 @@ CHECKS = {
         note='Trusted: TLC, harness.refinterp, symbolic actors, the recording stand-in for asset.Generation. Validity '
              'preconditions of a segment are stated in the evidence assumptions.',
         design='6/C01'),
+    'C02': dict(
+        technique='TLC exhaustive over all single-source/single-sink DAGs <= 5-6 nodes (pyfunc order/deque/replica model, dask '
+                  'ready-set scheduler model) + every generated table and compiled tables from TLC-generated segments executed '
+                  'by dask {synchronous, threads, processes} and pyfunc, sink records and persisted states compared with TLC',
+        text='Runners.tla proves, for every DAG in the constants, that the single-function transcoding returns the reference value '
+             'with empty replica queues and that the keyed ready-set scheduler never blocks or runs a task before its arguments. '
+             'Each generated DAG and each compiled table (getters, loaders, dumpers, committer; segments from Compiler.tla) is run '
+             'through the public run() entry point of every accepting backend; the sink must record TLC\'s value exactly once and '
+             'the persisted states must be TLC\'s ExpectedCommit.',
+        note='Trusted: TLC, symbolic pure actors, file-recording stand-in for asset.Generation. processes scheduler sampled in the '
+             'quick tier; distributed/spark not reachable offline.',
+        design='6/C02'),
+    'C19': dict(
+        technique='TLC exhaustive enumeration of Accept headers (Negotiation.tla: preference order, Match, encoder/decoder sets) '
+                  'replayed on the real codec in several spellings + TLC trace validation of random headers from a wider grammar',
+        text='Negotiation.tla defines the preference order (descending q, ties in header order), the pattern match and the set of '
+             'admissible encoders/decoders; every header TLC enumerates is rendered in several spellings and run through '
+             'Encoding.parse, get_encoder, get_decoder, Generic.receive/respond; random headers from a wider grammar are judged '
+             'clause by clause by TraceNegotiation.tla.',
+        note='Trusted: TLC, the rendering of abstract headers; q=0, malformed headers and quoted commas are outside the property '
+             '(excluded in the generators); codec round trip only on CSV (pandas 3.0 breaks the JSON decoders here) and auxiliary.',
+        design='6/C19'),
 }
 
 NOT_YET = {}
